@@ -389,3 +389,55 @@ Theorem C05_escape_decoding_is_source : forall (E : env) (v : bool) (s : st) (bu
 Proof. exact (@StrSrc2.escape_decoding_is_translated_source). Qed.
 Print Assumptions C05_escape_decoding_is_source.
 
+From Coq Require Import String.
+From SJ Require Import Base.Bytes Base.Utf8 Gen.Tables Model.Ser Model.EscAst Gen.EscTables.
+From SJ Require Model.SerStr Proofs.StrEscape Proofs.Utf8Lemmas Proofs.SerUtf8.
+Require Import Lia ZifyBool ZifyNat ZifyN.
+From SJ Require Import Proofs.EscSrc.
+Theorem C05_string_escaping_is_source :
+  forall (W : Type) (wall : W -> bytes -> W * res unit) (strict : bool) (fuel : nat) (w : W),
+  (* static ESCAPE: [u8; 256] with its named constants *)
+  (ESC_ESCAPE_VALUES = ESCAPE_TABLE /\ length ESC_ESCAPE = 256%nat /\
+   forall a, (a < 256)%N ->
+     static_get ESC_PROG "ESCAPE" (Z.of_N a) = Ok (VInt U8 (Z.of_N (SerStr.escape_of a))) /\
+     SerStr.escape_of a = nth (N.to_nat a) ESC_ESCAPE_VALUES 0%N /\
+     (SerStr.escape_of a =? 0)%N = negb (StrEscape.needs_escape a)) /\
+  (* CharEscape::from_escape_table(escape, byte) *)
+  (forall e b, (2 <= fuel)%nat ->
+     run_esc wall strict ESC_PROG fuel "CharEscape::from_escape_table" [VInt U8 (Z.of_N e); VInt U8 (Z.of_N b)] w
+     = (w, rmap enc (SerStr.from_escape_table e b))) /\
+  (* Formatter::write_char_escape(writer, char_escape): one write_all of SerStr.write_char_escape *)
+  (forall ce, (forall b, ce = SerStr.CEAsciiControl b -> (b < 256)%N) -> (2 <= fuel)%nat ->
+     run_esc wall strict ESC_PROG fuel "Formatter::write_char_escape" [enc ce] w = wv (wall w (SerStr.write_char_escape ce))) /\
+  (* format_escaped_str_contents / format_escaped_str *)
+  (forall s, rust_str strict s -> (4 <= fuel)%nat ->
+     run_esc wall strict ESC_PROG fuel "format_escaped_str_contents" [VStr s] w = as_val (run_trw wall w (Ser.format_escaped_str_contents s))) /\
+  (forall s, rust_str strict s -> (5 <= fuel)%nat ->
+     run_esc wall strict ESC_PROG fuel "format_escaped_str" [VStr s] w = as_val (run_trw wall w (Ser.format_escaped_str s))) /\
+  (* Serializer::serialize_str / serialize_char, MapKeySerializer::serialize_str / serialize_char *)
+  (forall s, rust_str strict s -> (7 <= fuel)%nat ->
+     run_esc wall strict ESC_PROG fuel "Serializer::serialize_str" [VStr s] w = as_val (run_trw wall w (Ser.format_escaped_str s)) /\
+     run_esc wall strict ESC_PROG fuel "MapKeySerializer::serialize_str" [VStr s] w = as_val (run_trw wall w (Ser.format_escaped_str s))) /\
+  (forall c, is_scalar c = true -> (7 <= fuel)%nat ->
+     run_esc wall strict ESC_PROG fuel "Serializer::serialize_char" [VChar c] w
+     = as_val (run_trw wall w (Ser.format_escaped_str (utf8_encode c))) /\
+     run_esc wall strict ESC_PROG fuel "MapKeySerializer::serialize_char" [VChar c] w
+     = as_val (run_trw wall w (Ser.format_escaped_str (utf8_encode c)))) /\
+  (* the two hand models are the same function, and the trace writer yields Model/SerStr.v's buffers *)
+  (forall s, Forall (fun b => (b < 256)%N) s ->
+     SerStr.format_escaped_str s = Ok (SerStr.escape_str s) /\ Ser.format_escaped_str s = (SerStr.escape_str s, Ok tt)) /\
+  (forall s, rust_str strict s -> (7 <= fuel)%nat ->
+     run_esc tw strict ESC_PROG fuel "Serializer::serialize_str" [VStr s] [] = (SerStr.escape_str s, Ok VUnit)).
+Proof. exact (@EscSrc.string_escaping_is_translated_source). Qed.
+Print Assumptions C05_string_escaping_is_source.
+
+Theorem C05_escape_table_is_source :
+  ESC_ESCAPE_VALUES = ESCAPE_TABLE /\
+  (forall a, (a < 256)%N ->
+     static_get P "ESCAPE" (Z.of_N a) = Ok (VInt U8 (Z.of_N (SerStr.escape_of a))) /\
+     SerStr.escape_of a = nth (N.to_nat a) ESC_ESCAPE_VALUES 0%N /\
+     (SerStr.escape_of a =? 0)%N = negb (StrEscape.needs_escape a)) /\
+  length ESC_ESCAPE = 256%nat.
+Proof. exact (@EscSrc.escape_table_is_source). Qed.
+Print Assumptions C05_escape_table_is_source.
+
